@@ -17,6 +17,16 @@ CLOCK0 = 1000000
 
 
 # ---------------------------------------------------------------------------- cases
+# The property asks for a report on stderr under the failing host's own name; it does not fix the WORDING.  A report =
+# a line with pdsh's own prefix that names the host.  Which of a worker's reports is the command-timeout one is
+# decided by when it comes (after a successful connect) and loosely by its text: timeout / timed out / time-out.
+TIMEOUT_RE = re.compile(rb"(?i)time(d[ -]?|[ -])?out")
+
+
+def names_host(data, name):
+    return re.match(rb"^pdsh@[^:]*: " + re.escape(name.encode()) + rb": ", data) is not None
+
+
 def line_bytes(i, stream, j, n):
     """the j-th data item of host i on a stream: exactly n bytes, one text line"""
     body = ("%s%d.%d" % (stream, i, j)).ljust(n - 1, "+")[:n - 1]
@@ -194,8 +204,8 @@ def observe(res):
                 else:
                     if re.match(rb"^pdsh@[^:]*: ", data):
                         h["reports"].append((now, data))
-                        if b"command timeout" in data:
-                            h["timeout_at"] = now
+                        if TIMEOUT_RE.search(data) and h["connret"] is not None and h["connret"] >= 0:
+                            h["timeout_at"] = now          # given up on while its command was running
                     else:
                         h["stderr"] += data
             elif ev[0] == "destroyBegin":
@@ -314,7 +324,7 @@ def offenders(res):
             if h["cend"] > h["start"] + ct + WDOG_POLL:
                 out.append(("connect-deadline", "%s still connecting at %d, started %d, connect timeout %d" %
                             (name, h["cend"], h["start"], ct)))
-            if not any(name.encode() + b": connect: timed out" in r for _, r in h["reports"]):
+            if not any(names_host(r, name) for _, r in h["reports"]):
                 out.append(("not-reported", "%s: connect timed out but nothing on stderr under its name" % name))
             continue
         if must_to:
@@ -326,7 +336,7 @@ def offenders(res):
         if kind == "refuse":
             if h["connret"] >= 0:
                 out.append(("refused-but-connected", name))
-            elif not any(name.encode() + b": connect: " in r for _, r in h["reports"]):
+            elif not any(names_host(r, name) for _, r in h["reports"]):
                 out.append(("not-reported", "%s: connection refused but nothing on stderr under its name" % name))
             continue
         if h["connret"] < 0:
@@ -353,7 +363,7 @@ def offenders(res):
                              " (the watchdog's SIGALRM at %s found the worker outside xpoll, relaying output, and "
                              "was lost)" % lost if lost else "")))
                 slip += WDOG_POLL * len(lost)
-            if not any((b": " + name.encode() + b": command timeout") in r for _, r in h["reports"]):
+            if not any(names_host(r, name) and TIMEOUT_RE.search(r) for t, r in h["reports"] if t >= h["timeout_at"]):
                 out.append(("not-reported", "%s: command timeout not reported under its own name" % name))
             if not scripted(host, "out").startswith(got_out):
                 out.append(("output-corrupted", "%s: stdout before the timeout is not a prefix of what it sent" % name))
@@ -460,7 +470,8 @@ def project(res, variant, selfcheck=False, stopwdog=False):
                 got[i][(int(t[2]) - 1000) % 2] += int(t[4])
             elif t[1] == "close":
                 closed[i][(int(t[2]) - 1000) % 2] = True
-            elif t[1] == "fputs" and t[2] == "2" and b"command timeout" in bytes.fromhex(t[3] if t[3] != "-" else ""):
+            elif t[1] == "fputs" and t[2] == "2" and resv[i] == "none" and \
+                    TIMEOUT_RE.search(bytes.fromhex(t[3] if t[3] != "-" else "")):
                 resv[i] = "cmdTimedOut"
         if resv[i] == "none" and closed[i][0] and (closed[i][1] or not sopt):
             resv[i] = "done"
